@@ -3,6 +3,7 @@ import KitModel.NoPanicKeys
 import KitModel.NoPanicEnc
 import KitModel.NoPanicKW
 import KitModel.NoPanicReflect
+import KitModel.NoPanicDecode
 /-!
 Driver for property C07: `kitdrv C07` reads one op per line and answers with the outcome class
 (and the values) the Lean models compute:
@@ -14,6 +15,8 @@ Driver for property C07: `kitdrv C07` reads one op per line and answers with the
   validate kw=<hex> cph=<hex> wfk=<n> np=<n>   → `ok <kw> <cph>` | `err`
   kwwrap n=<len> / kwunwrap n=<len> intact=<0|1> → `ok <outlen>` | `err` | `panic <why>`   (length-level aeskw)
   ptrprefix v=<RV>                             → `ok unchanged` | `ok deref` | `panic <why>` (reflect prefix of decodeString)
+  pempriv block=<none|ec|rsa|pkcs8|other> sec1=<0|1> pkcs1=<0|1> p8=<none|rsa|ecdsa|ed25519|ecdh> → `ok` | `err` | `panic`
+  hook f=<ty> t=<ty> empty=<0|1> pd=<0|1> pi=<0|1> cast=<0|1> q=<0|1>             → `ok` | `err` | `panic`  (metadata hook chain)
      RV ::= zero | nil:<ptr|iface|map|slice|func|chan> | ptr(RV) | iface(RV) | leaf:<kind>
 -/
 namespace Driver.C07
@@ -109,6 +112,22 @@ def step (_ : Unit) (line : String) : Unit × String :=
       | some kw, some cph, some w, some n =>
         showOutcome (fun (p : String × String) => s!"{p.1} {p.2}") (Enc.manifestValidate (asName kw) w (asName cph) n)
       | _, _, _, _ => "bad-request"
+    | "pempriv" =>
+      let block : Option Keys.BlockType := match l.get? "block" with
+        | some "ec" => some .ecPrivateKey | some "rsa" => some .rsaPrivateKey | some "pkcs8" => some .privateKey
+        | some "other" => some .other | _ => none
+      let p8 : Option Keys.Pkcs8Key := match l.get? "p8" with
+        | some "rsa" => some .rsa | some "ecdsa" => some .ecdsa | some "ed25519" => some .ed25519 | some "ecdh" => some .ecdh | _ => none
+      showOutcome (fun (_ : Unit) => "") (Keys.decodePEMPrivateKey true block (l.nat? "sec1" == some 1) (l.nat? "pkcs1" == some 1) p8)
+    | "hook" =>
+      let ty (s : Option String) : Decode.Ty := match s with
+        | some "string" => .string | some "duration" => .duration | some "kitDuration" => .kitDuration | some "bool" => .bool
+        | some "boolPtr" => .boolPtr | some "stringSlice" => .stringSlice | some "stringSlicePtr" => .stringSlicePtr
+        | some "durationSlice" => .durationSlice | some "durationSlicePtr" => .durationSlicePtr | some "byteSize" => .byteSize
+        | some "byteSizePtr" => .byteSizePtr | some "mapStringString" => .mapStringString | some "int" => .int
+        | some "int64" => .int64 | some "float64" => .float64 | some "struct" => .struct | _ => .other
+      let b (k : String) : Bool := l.nat? k == some 1
+      showOutcome (fun (_ : Decode.Ty) => "") (Decode.hookChain ⟨b "empty", b "pd", b "pi", b "cast", b "q"⟩ (ty (l.get? "f")) (ty (l.get? "t")))
     | "kwwrap" =>
       match l.nat? "n" with
       | some n => showOutcome (fun (k : Nat) => toString k) (KW.wrap n)
